@@ -1,7 +1,7 @@
 #!/usr/bin/env python3
 """Mechanical single-token mutants of the anchored source files, as an independent measure of sensitivity.
 
-usage: tools/automut.py <out.jsonl> [-j N] [--max N] [file ...]
+usage: tools/automut.py <out.jsonl> [-j N] [--max N] [--only file:line:op,...] [file ...]
 
 For every mutant (one operator applied at one place of one non-test file): apply it in a scratch worktree of /repo
 (under /tmp, removed afterwards), keep it only if `go build ./...` and the repository's own 64 tests still pass, then run the
@@ -133,7 +133,7 @@ def run_one(idx, mut):
 def main():
     args = sys.argv[1:]
     out = args.pop(0)
-    jobs, mx = 5, None
+    jobs, mx, only = 5, None, None
     files = []
     while args:
         a = args.pop(0)
@@ -141,11 +141,15 @@ def main():
             jobs = int(args.pop(0))
         elif a == "--max":
             mx = int(args.pop(0))
+        elif a == "--only":  # file:line:op[,file:line:op...] - re-run just these (e.g. after a strengthening)
+            only = set(args.pop(0).split(","))
         else:
             files.append(a)
     muts = []
     for rel in files or FILES:
         muts += mutants_of(os.path.join("/repo", rel), rel)
+    if only:
+        muts = [m for m in muts if f"{m['file']}:{m['line']}:{m['op']}" in only]
     if mx and len(muts) > mx:
         # deterministic thinning: every k-th mutant
         step = len(muts) / mx
